@@ -241,6 +241,14 @@ class LocalStorageBackend(StorageBackend):
         logger.debug(f"Writing file: {path} ({len(content)} bytes)")
 
         full_path = self._resolve_path(path)
+        if full_path == self._real_base_path():
+            # '.', '' or 'data/..' resolve to the table root itself. The root is
+            # "inside" for the containment check, but the temp file of an atomic
+            # write lives NEXT TO its target - i.e. in the root's parent
+            # directory, outside the table.
+            raise ValueError(
+                f"Security Error: '{path}' resolves to the table root itself, not to a file inside it"
+            )
         dir_path = os.path.dirname(full_path)
         os.makedirs(dir_path, exist_ok=True)
 
